@@ -24,7 +24,7 @@ RULE = ("Part A: a csr.Decoder over 0-5 plain subordinate interfaces (sizes 2..3
         "registers. Distinct = canonical JSON.")
 BUDGET = {"quick": (16, 200), "thorough": (16, 4000)}
 ESSENTIAL = ["part:A", "part:B", "unassigned_address", "alignment_padding_address", "named", "anonymous",
-             "explicit_slot", "B:depth>=2", "full_width_sub", "add_order_differs_from_address_order"]
+             "explicit_slot", "refused_add_ghost", "B:depth>=2", "full_width_sub", "add_order_differs_from_address_order"]
 ASSUMPTIONS = [
     "subordinates obey the CSR bus protocol: r_data is zero except in the cycle after their own r_stb",
     "part B uses shadow_overlaps=None everywhere (C05 covers sharing limits)",
@@ -60,7 +60,7 @@ def _spec(draw, tier):
 
 
 def strategy(tier):
-    return _spec(tier)
+    return gens.with_pre(_spec(tier))
 
 
 # ------------------------------------------------------------------------------------ part A
@@ -127,6 +127,9 @@ def _check_a(spec, stats):
                     v = hval(seed, "rd", t, dw) | 1
                     exp_rdata = v
                 ctx.set(f.r_data, v)
+            for gi, gh in enumerate(dec.ghosts):
+                ctx.set(gh.r_data, hval(seed, f"gh{gi}", t, dw) | 1)   # not a subordinate: must not matter
+                stats.label("refused_add_ghost")
             sel = select(a)
             where = f"cycle {t} addr={a:#x} r_stb={r} w_stb={w} (windows {[(i, s, oe) for i, s, oe, _ in wins]})"
             if sel is None:
@@ -249,6 +252,8 @@ def _check_b(spec, stats):
 
 
 def check(spec, stats):
+    if sim.set_pre(spec):
+        stats.label("pre_elaborated")
     if spec["part"] == "A":
         _check_a(spec, stats)
     else:
